@@ -945,6 +945,16 @@ def _local_trace(frame, event, arg):
         s = RT.sched
         t = s.by_ident.get(sk.REAL_GET_IDENT())
         if t is not None and not s.teardown:
+            la = s.knobs.get("line_at")
+            if la and frame.f_code.co_name == la["func"] and t.state == sk.RUNNABLE and not t.killed:
+                run = RT.run
+                run.line_at_count = getattr(run, "line_at_count", 0) + 1
+                if run.line_at_count == la["n"]:
+                    # one delay placed at a source line: this thread runs again only when nobody else can
+                    t.prio = -1e9
+                    run.line_preempts += 1
+                    s.yield_("line")
+                    return _local_trace
             hot = s.knobs.get("hot")
             if hot:
                 q = hot.get(frame.f_code.co_name)
@@ -969,7 +979,7 @@ def _global_trace(frame, event, arg):
 
 def on_task_start(t):
     s = RT.sched
-    if (s.knobs["line_q"] > 0 or s.knobs.get("hot")) and t.proc.pid == 100:
+    if (s.knobs["line_q"] > 0 or s.knobs.get("hot") or s.knobs.get("line_at")) and t.proc.pid == 100:
         t.line_gap = s.dec.gap(s.knobs["line_q"])
         sys.settrace(_global_trace)
     if not t.is_py_thread:
